@@ -140,6 +140,8 @@ def cases(tier):
         for dt in ("float", "int"):
             yield ("relation", cmd, dt, tier)
     yield ("inverse", "CvtFromFuzzy", "float", tier)
+    for cmd in CMDS:
+        yield ("edited", cmd, tier)
 
 
 def _run_cmd(case):
@@ -266,8 +268,92 @@ def _inverse(case):
             "sample": {"relation": "CvtFromFuzzy o CvtToFuzzy = id between thresholds"}}
 
 
+def _run_edited(case):
+    """the mapping must be the one of the CURRENT arguments: a program whose first run() stops at a later command (a data file that does not
+    exist yet), then the conversion's arguments are changed (argument.value on the public Argument objects, or del + add_command), then
+    run() again: the result must equal the reference mapping for the new arguments"""
+    import contextlib
+    import io
+    import os
+
+    from mpilot.exceptions import MPilotError
+    from mpilot.program import Program
+    from .. import snapshot
+    from ..ref import sig as SIG
+
+    _, cmd, tier = case
+    work = snapshot.scratch_dir("c08_")
+    col = [1.0, 5.0, 10.0, 2.0, 8.0, 0.0]
+    with open(os.path.join(work, "in.csv"), "w") as f:
+        f.write("A\n" + "\n".join(repr(v) for v in col) + "\n")
+    libs = ("mpilot.libraries.eems.basic", "mpilot.libraries.eems.csv", "mpilot.libraries.eems.fuzzy")
+    P = [p_ for p_ in presets(cmd) if REF.apply(cmd, [[F(v) for v in ([-1, -0.5, 0, 0.25, 1, 0.5] if cmd == "CvtFromFuzzy" else col)]], p_)[0] == "ok"]
+    pairs = [(a, b) for a in P[:6] for b in P[:6] if a is not b and set(a) == set(b) and a != b][:12]
+    viols, outcomes = [], {}
+    evals = judged = 0
+    sample = None
+    slot = SIG.result_slots(cmd)[0][0]
+    try:
+        for p1, p2 in pairs:
+            for how in ("edit-argument-values", "del-and-add"):
+                for first_run in (True, False):
+                    late = os.path.join(work, "late.csv")
+                    if os.path.exists(late):
+                        os.remove(late)
+                    p = Program(libraries=libs, working_dir=work)
+                    lib = p.command_library
+                    p.add_command(lib["EEMSRead"], "A", {"InFileName": "in.csv", "InFieldName": "A"})
+                    src = "A"
+                    if cmd == "CvtFromFuzzy":
+                        p.add_command(lib["CvtToFuzzy"], "Z", {"InFieldName": "A", "TrueThreshold": 10, "FalseThreshold": 0})
+                        src = "Z"
+                    p.add_command(lib[cmd], "X", dict({slot: src}, **p1))
+                    p.add_command(lib["EEMSRead"], "L", {"InFileName": "late.csv", "InFieldName": "A"})
+                    if first_run:
+                        try:
+                            with contextlib.redirect_stdout(io.StringIO()), numpy.errstate(all="ignore"):
+                                p.run()
+                        except MPilotError:
+                            pass
+                    with open(late, "w") as f:
+                        f.write("A\n1\n2\n3\n4\n5\n6\n")
+                    if how == "edit-argument-values":
+                        for a in p.commands["X"].arguments:
+                            if a.name in p2:
+                                a.value = p2[a.name]
+                    else:
+                        del p.commands["X"]
+                        p.add_command(lib[cmd], "X", dict({slot: src}, **p2))
+                    try:
+                        with contextlib.redirect_stdout(io.StringIO()), numpy.errstate(all="ignore"):
+                            p.run()
+                        res = ("ok", p.commands["X"].result)
+                    except MPilotError as exc:
+                        res = ("err", exc)
+                    evals += 1
+                    cells = [F(v) for v in col]
+                    if cmd == "CvtFromFuzzy":
+                        cells = REF.apply("CvtToFuzzy", [cells], {"TrueThreshold": 10, "FalseThreshold": 0})[1]
+                    tag = {"cmd": cmd, "first_arguments": p1, "current_arguments": p2, "edit": how, "first_run_failed_late": first_run}
+                    sample = tag
+                    counters = {"judged": 0, "unspecified": 0}
+                    nv = len(viols)
+                    D.judge("C08", cmd, p2, [cells], res, (len(col),), viols, tag, counters, V)
+                    for v in viols[nv:]:
+                        v["key"] = v["key"].replace("C08:%s:" % cmd, "C08:%s:after-edit:" % cmd)
+                    judged += 1
+                    k = "edited:%s" % ("ok" if len(viols) == nv else "bad")
+                    outcomes[k] = outcomes.get(k, 0) + 1
+    finally:
+        import shutil
+        shutil.rmtree(work, ignore_errors=True)
+    return {"evals": max(evals, 1), "nontrivial": evals, "judged": judged, "viols": viols[:30], "outcomes": outcomes, "sample": sample}
+
+
 def run(case):
     case = tuple(case)
+    if case[0] == "edited":
+        return _run_edited(case)
     if case[0] == "relation":
         return _relation(case)
     if case[0] == "inverse":
